@@ -372,6 +372,27 @@ def run(argv):
             w.close()
 
 
+def one(argv):
+    """apply one generated edit in a scratch worktree and run the given (default: mapped) quick checks of /verif on it"""
+    mid, props = argv[0], argv[1:]
+    m = {x["id"]: x for x in json.loads((OUT / "mutants.json").read_text())["mutants"]}[mid]
+    wt = tempfile.mkdtemp(prefix="pbms1-", dir="/tmp")
+    os.rmdir(wt)
+    subprocess.run(["git", "-C", str(REPO), "worktree", "add", "-f", "--detach", wt, "HEAD"], check=True, capture_output=True)
+    try:
+        p = Path(wt) / m["file"]
+        b = p.read_bytes()
+        assert b[m["a"]:m["b"]].decode() == m["old"], "source moved"
+        p.write_bytes(b[:m["a"]] + m["new"].encode() + b[m["b"]:])
+        print(subprocess.run(["git", "-C", wt, "diff", "-U1"], capture_output=True, text=True).stdout)
+        for pid in props or m["props"]:
+            env = dict(os.environ, PBVERIF_REPO=wt, PBVERIF_SEARCH_S="20", PBVERIF_OUT=str(VERIF / ".work" / "ms1"))
+            r = subprocess.run([str(VERIF / "bin" / "check"), pid, "quick"], cwd=VERIF, env=env, capture_output=True, text=True)
+            print(pid, r.returncode, [ln for ln in r.stdout.splitlines() if "conda" not in ln][-1:])
+    finally:
+        subprocess.run(["git", "-C", str(REPO), "worktree", "remove", "--force", wt], capture_output=True)
+
+
 def report():
     data = {m["id"]: m for m in json.loads((OUT / "mutants.json").read_text())["mutants"]}
     rows = [json.loads(ln) for ln in (OUT / "results.jsonl").read_text().splitlines() if ln.strip()]
@@ -388,4 +409,4 @@ def report():
 
 if __name__ == "__main__":
     cmd = sys.argv[1] if len(sys.argv) > 1 else "report"
-    {"gen": gen, "run": lambda: run(sys.argv[2:]), "report": report}[cmd]()
+    {"gen": gen, "run": lambda: run(sys.argv[2:]), "report": report, "one": lambda: one(sys.argv[2:])}[cmd]()
